@@ -502,4 +502,153 @@ theorem acctsRel_other_upsert {d : Int} {A : ADB} {l l' : String} {accts : List 
     have := hs.acct_lt r hr
     simp; omega
 
+-- ---------------------------------------------------------------- postings, transactions, log entries
+
+@[simp] theorem aInsertMove_acctMeta (A : ADB) (txSeq : Val) (l : String) (ins : Val) (eff : Int) (a x : String) (amt : Int) (src ex : Bool) (acc : Nat) :
+    (aInsertMove A txSeq l ins eff a x amt src ex acc).acctMeta = A.acctMeta := rfl
+
+theorem aInsertPosting_accts (A : ADB) (txSeq : Val) (l : String) (ins : Val) (eff : Int) (p : Posting) (am : List (String × Meta)) :
+    (aInsertPosting A txSeq l ins eff p am).accounts =
+      (aUpsertAccount (aUpsertAccount A l p.source (kvsOf (amMeta am p.source)) ins) l p.destination (kvsOf (amMeta am p.destination)) ins).accounts ∧
+    (aInsertPosting A txSeq l ins eff p am).acctMeta =
+      (aUpsertAccount (aUpsertAccount A l p.source (kvsOf (amMeta am p.source)) ins) l p.destination (kvsOf (amMeta am p.destination)) ins).acctMeta := by
+  simp only [aInsertPosting, aInsertMove_accounts, aInsertMove_acctMeta, amKvs_eq]
+  exact ⟨trivial, trivial⟩
+
+theorem acctsRel_postings {am : List (String × Meta)} {d : Int} {l : String} (hw : WFam am) (ps : List Posting) (A : ADB) (hs : Sane A)
+    (txSeq : Val) (ins : Val) (eff : Int) (accts : List AcctRec) (h : AcctsRel am d A l accts) :
+    AcctsRel am d (ps.foldl (fun A p => aInsertPosting A txSeq l ins eff p am) A) l (touchAll accts (postingAccounts ps) d) := by
+  induction ps generalizing A accts with
+  | nil => exact h
+  | cons p ps ih =>
+    have s1 := sane_upsertAccount A l p.source (kvsOf (amMeta am p.source)) ins hs
+    have h1 := acctsRel_touch hs hw h p.source ins
+    have h2 := acctsRel_touch s1 hw h1 p.destination ins
+    obtain ⟨e1, e2⟩ := aInsertPosting_accts A txSeq l ins eff p am
+    have h3 : AcctsRel am d (aInsertPosting A txSeq l ins eff p am) l (touch (touch accts p.source d) p.destination d) :=
+      acctsRel_congr e1 e2 h2
+    have := ih _ (sane_frame_insertPosting A txSeq l ins eff p am hs).1 _ h3
+    simpa [postingAccounts, touchAll, List.foldl_append] using this
+
+theorem acctsRel_postings_other {d : Int} {l l' : String} (hne : l' ≠ l) (am : List (String × Meta)) (ps : List Posting) (A : ADB) (hs : Sane A)
+    (txSeq : Val) (ins : Val) (eff : Int) (accts : List AcctRec) (h : AcctsRel [] d A l' accts) :
+    AcctsRel [] d (ps.foldl (fun A p => aInsertPosting A txSeq l ins eff p am) A) l' accts := by
+  induction ps generalizing A with
+  | nil => exact h
+  | cons p ps ih =>
+    have s1 := sane_upsertAccount A l p.source (kvsOf (amMeta am p.source)) ins hs
+    have h1 := acctsRel_other_upsert hs hne p.source (kvsOf (amMeta am p.source)) ins h
+    have h2 := acctsRel_other_upsert s1 hne p.destination (kvsOf (amMeta am p.destination)) ins h1
+    obtain ⟨e1, e2⟩ := aInsertPosting_accts A txSeq l ins eff p am
+    exact ih _ (sane_frame_insertPosting A txSeq l ins eff p am hs).1 (acctsRel_congr e1 e2 h2)
+
+theorem aInsertTransaction_accts (A : ADB) (l : String) (tx : Tx) (dv : Val) (am : List (String × Meta)) :
+    (aInsertTransaction A l tx dv am).accounts =
+      (tx.postings.foldl (fun B p => aInsertPosting B (.int A.txSeq) l dv tx.timestamp p am) (aTxInserted A l tx)).accounts ∧
+    (aInsertTransaction A l tx dv am).acctMeta =
+      (tx.postings.foldl (fun B p => aInsertPosting B (.int A.txSeq) l dv tx.timestamp p am) (aTxInserted A l tx)).acctMeta := ⟨rfl, rfl⟩
+
+theorem acctsRel_insertTransaction {am : List (String × Meta)} {d : Int} {l : String} (hw : WFam am) (A : ADB) (hs : Sane A) (tx : Tx) (dv : Val)
+    (accts : List AcctRec) (h : AcctsRel am d A l accts) :
+    AcctsRel am d (aInsertTransaction A l tx dv am) l (touchAll accts (postingAccounts tx.postings) d) := by
+  obtain ⟨e1, e2⟩ := aInsertTransaction_accts A l tx dv am
+  refine acctsRel_congr e1 e2 ?_
+  exact acctsRel_postings hw tx.postings (aTxInserted A l tx) (sane_txInserted A l tx hs) _ dv tx.timestamp accts
+    (acctsRel_congr (A := A) rfl rfl h)
+
+theorem acctsRel_insertTransaction_other {d : Int} {l l' : String} (hne : l' ≠ l) (am : List (String × Meta)) (A : ADB) (hs : Sane A) (tx : Tx) (dv : Val)
+    (accts : List AcctRec) (h : AcctsRel [] d A l' accts) : AcctsRel [] d (aInsertTransaction A l tx dv am) l' accts := by
+  obtain ⟨e1, e2⟩ := aInsertTransaction_accts A l tx dv am
+  refine acctsRel_congr e1 e2 ?_
+  exact acctsRel_postings_other hne am tx.postings (aTxInserted A l tx) (sane_txInserted A l tx hs) _ dv tx.timestamp accts
+    (acctsRel_congr (A := A) rfl rfl h)
+
+theorem acctsRel_accountMeta {d : Int} {l : String} (am : List (String × Meta)) (hw : WFam am) (A : ADB) (hs : Sane A) (dv : Val)
+    (accts : List AcctRec) (h : AcctsRel am d A l accts) :
+    AcctsRel [] d (am.foldl (fun A km => aUpsertAccount A l km.1 (kvsOf km.2) dv) A) l (applyAccountMeta accts am d) := by
+  induction am generalizing A accts with
+  | nil => exact h
+  | cons km rest ih =>
+    obtain ⟨a, m'⟩ := km
+    have hm : NodupKeys m' := hw (a, m') (List.mem_cons_self ..)
+    have h1 := acctsRel_set hs a m' hm h dv
+    exact ih (fun km hkm => hw km (List.mem_cons_of_mem _ hkm)) _ (sane_upsertAccount A l a (kvsOf m') dv hs) _ h1
+
+theorem acctsRel_accountMeta_other {d : Int} {l l' : String} (hne : l' ≠ l) (am : List (String × Meta)) (A : ADB) (hs : Sane A) (dv : Val)
+    (accts : List AcctRec) (h : AcctsRel [] d A l' accts) :
+    AcctsRel [] d (am.foldl (fun A km => aUpsertAccount A l km.1 (kvsOf km.2) dv) A) l' accts := by
+  induction am generalizing A with
+  | nil => exact h
+  | cons km rest ih =>
+    exact ih _ (sane_upsertAccount A l km.1 (kvsOf km.2) dv hs) (acctsRel_other_upsert hs hne km.1 (kvsOf km.2) dv h)
+
+/-- **every log entry keeps the accounts table related to the replayed accounts, for every ledger** -/
+theorem acctsRel_log (A : ADB) (v : View) (log : CLog) (hs : Sane A) (hw : WFLog log) (h : ∀ l, AcctsRel [] 0 A l (v l).accts) :
+    ∀ l', AcctsRel [] 0 (aStep A log) l' (step v log l').accts := by
+  intro l'
+  have hs' := sane_logged A log hs
+  have h' : ∀ l, AcctsRel [] 0 (aLogged A log) l (v l).accts := fun l => acctsRel_congr (A := A) (A' := aLogged A log) rfl rfl (h l)
+  unfold aStep
+  generalize aLogged A log = B at hs' h'
+  obtain ⟨l, id, d, ik, payload⟩ := log
+  simp only [step]
+  by_cases hl : l' = l
+  · subst hl
+    simp only [if_true]
+    cases payload with
+    | newTx tx am =>
+      have hwam : WFam am := hw.2
+      have h1 := acctsRel_insertTransaction hwam B hs' tx (.ts d) _ (acctsRel_weaken (am := am) (d' := d) (h' l'))
+      have h2 := acctsRel_accountMeta am hwam _ (sane_frame_insertTransaction B l' tx (.ts d) am hs').1 (.ts tx.timestamp) _ h1
+      have h3 : AcctsRel [] 0 _ l' _ := acctsRel_weaken h2
+      simpa [aHandle, stepLedger, applyPayload, insertTx] using h3
+    | revert rid tx =>
+      have h1 := acctsRel_insertTransaction (am := []) (by intro km hkm; cases hkm) B hs' tx (.ts d) _ (acctsRel_weaken (am := []) (d' := d) (h' l'))
+      have h2 : AcctsRel [] 0 _ l' _ := acctsRel_weaken h1
+      have h3 := acctsRel_congr (A' := aRevertTransaction (aInsertTransaction B l' tx (.ts d) []) l' rid (.ts tx.timestamp))
+        (by simp [aRevertTransaction]) (by simp [aRevertTransaction]) h2
+      simpa [aHandle, stepLedger, applyPayload, insertTx] using h3
+    | setMeta t m =>
+      cases t with
+      | account a =>
+        have h1 := acctsRel_set (rest := []) hs' a m hw (acctsRel_weaken (d' := d) (h' l')) (.ts d)
+        have h2 : AcctsRel [] 0 _ l' _ := acctsRel_weaken h1
+        simpa [aHandle, stepLedger, applyPayload] using h2
+      | transaction tid =>
+        have h3 := acctsRel_congr (A' := aUpdateTransactionMetadata B l' tid (kvsOf m) (.ts d))
+          (by simp [aUpdateTransactionMetadata]) (by simp [aUpdateTransactionMetadata]) (h' l')
+        simpa [aHandle, stepLedger, applyPayload] using h3
+    | delMeta t k =>
+      cases t with
+      | account a =>
+        have h1 := acctsRel_del hs' a k (acctsRel_weaken (am := []) (d' := d) (h' l')) (.ts d)
+        have h2 : AcctsRel [] 0 _ l' _ := acctsRel_weaken h1
+        simpa [aHandle, stepLedger, applyPayload] using h2
+      | transaction tid =>
+        have h3 := acctsRel_congr (A' := aDeleteTransactionMetadata B l' tid k (.ts d))
+          (by simp [aDeleteTransactionMetadata]) (by simp [aDeleteTransactionMetadata]) (h' l')
+        simpa [aHandle, stepLedger, applyPayload] using h3
+  · simp only [hl, if_false]
+    cases payload with
+    | newTx tx am =>
+      have h1 := acctsRel_insertTransaction_other hl am B hs' tx (.ts d) _ (h' l')
+      exact acctsRel_accountMeta_other hl am _ (sane_frame_insertTransaction B l tx (.ts d) am hs').1 (.ts tx.timestamp) _ h1
+    | revert rid tx =>
+      have h1 := acctsRel_insertTransaction_other hl [] B hs' tx (.ts d) _ (h' l')
+      exact acctsRel_congr (A' := aRevertTransaction (aInsertTransaction B l tx (.ts d) []) l rid (.ts tx.timestamp))
+        (by simp [aRevertTransaction]) (by simp [aRevertTransaction]) h1
+    | setMeta t m =>
+      cases t with
+      | account a => exact acctsRel_other_upsert hs' hl a (kvsOf m) (.ts d) (h' l')
+      | transaction tid =>
+        exact acctsRel_congr (A' := aUpdateTransactionMetadata B l tid (kvsOf m) (.ts d))
+          (by simp [aUpdateTransactionMetadata]) (by simp [aUpdateTransactionMetadata]) (h' l')
+    | delMeta t k =>
+      cases t with
+      | account a =>
+        exact acctsRel_other_update hs' hl _ _ (fun r hr => by simp at hr; exact hr.2) (fun r => ⟨rfl, rfl, rfl⟩) (h' l')
+      | transaction tid =>
+        exact acctsRel_congr (A' := aDeleteTransactionMetadata B l tid k (.ts d))
+          (by simp [aDeleteTransactionMetadata]) (by simp [aDeleteTransactionMetadata]) (h' l')
+
 end StoreSql
